@@ -62,6 +62,15 @@ func (g *Gen) verifyContract(p *program, c *Contract) (obs []*Oblig, x *fx, err 
 			x2.warnings = append(x2.warnings, fmt.Sprintf("clause %q for loop=%d is unused: the function has %d loops", cl.Label, cl.Loop, nl))
 		}
 	}
+	// a postcondition that was skipped at every return (it mentions locals that
+	// are in scope at none of them) checks nothing: the contract does not bind
+	if x2.retCount > 0 {
+		for k, cl := range c.Ensures {
+			if !x2.ensuresEvaluated[k] {
+				return []*Oblig{mk("binds", fmt.Sprintf("contract does not bind: ensures %q mentions locals that are in scope at no return", clauseLabel(cl, k)))}, x2, nil
+			}
+		}
+	}
 	return x2.obs, x2, nil
 }
 
